@@ -66,17 +66,30 @@ def parseProg (items : List Sx) : Option Prog :=
   go items { constants := #[], functions := #[], tuples := #[], types := 0, builtins := 0 }
 
 def renderAnn : Option Ann → String
-  | some a => s!"{a.height}:{a.locals}"
+  | some a => if a.guard = .none then s!"{a.height}:{a.locals}" else s!"{a.height}:{a.locals}:{a.guard.render}"
   | none => "_"
 
 def renderAnns (anns : Anns) : String := " ".intercalate (anns.toList.map renderAnn)
 
+def parseGuard (tok : String) : Option Guard :=
+  if tok = "z" then some .nilTop
+  else
+    match tok.toList with
+    | 't' :: r => (String.ofList r).toNat?.map .top
+    | 'd' :: r => (String.ofList r).toNat?.map .dup
+    | 'n' :: r => (String.ofList r).toNat?.map .neg
+    | _ => none
+
+/-- `h:l` (no guard) or `h:l:<guard>` with `<guard>` = `t<g>` | `d<g>` | `n<g>` | `z`. -/
 def parseAnn (tok : String) : Option (Option Ann) :=
   if tok = "_" then some none
   else match tok.splitOn ":" with
     | [h, l] => match h.toNat?, l.toNat? with
-      | some x, some y => some (some ⟨x, y⟩)
+      | some x, some y => some (some ⟨x, y, .none⟩)
       | _, _ => none
+    | [h, l, g] => match h.toNat?, l.toNat?, parseGuard g with
+      | some x, some y, some z => some (some ⟨x, y, z⟩)
+      | _, _, _ => none
     | _ => none
 
 
